@@ -8,6 +8,16 @@ sys.path.insert(0, os.path.dirname(os.path.dirname(os.path.abspath(__file__))))
 from vstatic import core, mut, src  # noqa: E402
 from vstatic import props  # noqa: E402,F401
 
+if os.environ.get('RAISE_TB'):       # RAISE_TB=AttributeError: Python stack at every modelled raise of that exception
+    from vstatic import ev as _ev
+    _orig = _ev.PyRaise.__init__
+
+    def _init(self, *a, **k):
+        _orig(self, *a, **k)
+        if getattr(self, 'name', '') == os.environ['RAISE_TB']:
+            print('--- modelled raise:', self, file=sys.stderr)
+            traceback.print_stack(limit=int(os.environ.get('RAISE_TB_DEPTH', '10')))
+    _ev.PyRaise.__init__ = _init
 path, plist = sys.argv[1:3]
 only = sys.argv[3].split(',') if len(sys.argv) > 3 else None
 base = src.Forest.load()
